@@ -36,6 +36,17 @@ func init() {
 		},
 	})
 	core.Register(&core.Property{
+		ID:         "C05",
+		Decided:    "Decides, for every byte-dispatching scanner state of the decoders and of Compact/Indent, which of the 256 byte values reach an error (control bytes inside strings, bytes that cannot start or separate a value, illegal escape letters, unchecked \\u digits), that every scanned number token reaches a numeric parser, that every success return of the Unmarshal entry points passes validateEndBuf and that validateEndBuf checks the NUL is the sentinel, and that the class tables hold the RFC sets; it does not decide the accepted language.",
+		NotCovered: "the language itself: number grammar (strconv.ParseFloat accepts 01, 1., -.5), ordering of tokens (a comma after a value, a colon after a key), Valid's use of the stream decoder, literals in stream mode (see C09.R2).",
+		Rules: []*core.Rule{
+			{ID: "C05.R1", Title: "byte classes of every scanner state: in-string dispatch sends 0x01-0x1f to an error; value-level dispatch lets only blank { } [ ] \" , : - 0-9 t f n NUL avoid an error; escape dispatch accepts exactly \" \\ / b f n r t u and tests four hex digits after u", Covers: "raw control characters, stray bytes in ignored parts, invalid escapes cause an error", Min: 100, Run: c05r1},
+			{ID: "C05.R2", Title: "every function that consumes a run of floatTable/numTable bytes hands the token to strconv.ParseFloat/parseInt/parseUint (or returns it to callers that all do) before reporting success", Covers: "malformed numbers cause an error even in ignored parts", Min: 8, Run: c05r2},
+			{ID: "C05.R3", Title: "every success return of unmarshal/unmarshalContext/unmarshalNoEscape/extractFromPath after the decode call is the result of validateEndBuf, and validateEndBuf's NUL clause checks the cursor against len(src)", Covers: "anything following the value, including bytes after an embedded NUL, causes an error", Min: 6, Run: c05r3},
+			{ID: "C05.R4", Title: "floatTable (both copies), numTable, isWhiteSpace (both copies), validEndNumberChar, hexToInt hold exactly the RFC 8259 character sets", Covers: "no scanner consults a widened class", Min: 1700, Run: c05r4},
+		},
+	})
+	core.Register(&core.Property{
 		ID:         "C17",
 		Decided:    "Decides that the encoder's escape table, 8-byte scan mask and slow-path switch agree with each other per variant, that the UTF-8 lead-byte table matches the definition, and that all decoder escape readers accept the same letters and test \\u digits; it does not decide the emitted or decoded string for any input.",
 		NotCovered: "position-dependent behaviour of the 8-byte scan, surrogate-pair arithmetic, equality with encoding/json's decoded string.",
